@@ -97,7 +97,9 @@ func nodeVia(v any, route int) dom.Node {
 }
 
 // keys are arbitrary strings for Equals: dots, blanks and the empty key are ordinary member names (a trailing [n] is not: the builder reads it as a list index)
-var c05OddKeys = []string{"a", "a.b", "b", "", "x.y.z", "app.kubernetes.io/name", "a b", "a.b.c"}
+var c05OddKeys = []string{"a", "a.b", "b", "", "x.y.z", "app.kubernetes.io/name", "a b", "a.b.c",
+	// names that merely look like a list position: ordinary member names
+	"tags[]", "offset[-1]", "delta[+2]", "x[y]", "[default]", "n[1"}
 
 func c05Eq(a, b any) Case { return c05EqVia(a, b, 0, 0) }
 
@@ -374,7 +376,7 @@ func mutateVal(r *rand.Rand, v any, o genOpts) any {
 func init() {
 	register(&Prop{
 		ID:   "C05",
-		Rule: "kinds: equals (exhaustive ordered pairs of all nodes with <= 2 (quick) / <= 3 (thorough) nodes over keys {a,b} and scalars {null,1,\"1\",\"x\"}, then random pairs: equal / one-edit apart / unrelated; every operand built along one of four routes: builder API, decoder (FromMap), Clone, sealed read-only view; a third of the random documents use odd member names: dots, slashes, blanks, the empty key), trans (triples), nil, sameas, edit-equals (Equals re-evaluated against the plain views after every one of 1-6 in-place edits, incl. MustSet, of one operand that has been read before), clone-sealed (the original holds sealed views of builders that are edited after cloning), clone (clone then 1-10 random in-place edits of the original or of the clone; the other side must not change). Non-trivial: same-kind unequal composite pair; clone of a document with > 2 nodes. Distinct by Gallina term.",
+		Rule: "kinds: equals (exhaustive ordered pairs of all nodes with <= 2 (quick) / <= 3 (thorough) nodes over keys {a,b} and scalars {null,1,\"1\",\"x\"}, then random pairs: equal / one-edit apart / unrelated; every operand built along one of four routes: builder API, decoder (FromMap), Clone, sealed read-only view; a third of the random documents use odd member names: dots, slashes, blanks, the empty key, and names that merely look like list positions: tags[], offset[-1], delta[+2], x[y], [default]), trans (triples), nil, sameas, edit-equals (Equals re-evaluated against the plain views after every one of 1-6 in-place edits, incl. MustSet, of one operand that has been read before), clone-sealed (the original holds sealed views of builders that are edited after cloning), clone (clone then 1-10 random in-place edits of the original or of the clone; the other side must not change). Non-trivial: same-kind unequal composite pair; clone of a document with > 2 nodes. Distinct by Gallina term.",
 		Corpus: func() []Case {
 			return []Case{
 				c05Eq(map[string]any{"a": 1}, map[string]any{"a": 1, "b": 2}), // pinned-tree defect
